@@ -590,7 +590,7 @@ void run_case(vf::Case& c)
 {
     if (c.enumerated) {
         bool th = c.tier == vf::Tier::thorough;
-        enumerate_first_op<ExpSubject>((unsigned)c.index, th ? 4 : 3, 3);
+        enumerate_first_op<ExpSubject>((unsigned)c.index, (th && VF_CFG < 2) ? 4 : 3, 3); // the T == E configurations stay at depth 3
     } else {
         random_history<ExpSubject>(c.rng, 50, 3);
     }
